@@ -787,7 +787,7 @@ func sentinelLost(kind, outs string) bool {
 
 func runNet1(j job) (string, bool) {
 	switch j.kind {
-	case "srv.ip", "srv.scion", "srv.scionnts", "srv.scionauth", "srv.scmp", "srv.csptp", "srv.ntske", "srv.kestall", "srv.quic", "srv.quicke", "cli.scionnts", "cli.overlap", "cli.ipopt", "cli.kestall", "cli.kestallquic", "srv.scionnodaemon", "srv.ip6", "cli.ip6", "cli.ip", "cli.nts", "cli.scion", "cli.csptp":
+	case "srv.ip", "srv.scion", "srv.scionnts", "srv.scionauth", "srv.scmp", "srv.csptp", "srv.ntske", "srv.kestall", "srv.quic", "srv.quicke", "cli.scionnts", "cli.overlap", "cli.ipopt", "cli.kestall", "cli.kestallquic", "srv.scionnodaemon", "srv.dispatcher", "srv.ip6", "cli.ip6", "cli.ip", "cli.nts", "cli.scion", "cli.csptp":
 	default:
 		return "", false
 	}
@@ -804,6 +804,8 @@ func runNet1(j job) (string, bool) {
 		return e.runNoDaemon(a), true
 	case "srv.ip6":
 		return e.runIP6(a), true
+	case "srv.dispatcher":
+		return e.runDispatcher(a), true
 	case "srv.csptp":
 		return e.runCSPTPServer(a), true
 	case "srv.ntske":
